@@ -29,13 +29,13 @@ type ImportMod struct {
 // for that module by a later import).
 type ImportStmt struct {
 	Alias string `json:"alias,omitempty"`
-	K    string `json:"k"`           // imp mut read star-probe ident gomod code
-	Form string `json:"f,omitempty"` // plain as from fromas star
-	M    string `json:"m,omitempty"` // target module
-	N    string `json:"n,omitempty"` // name imported (from forms)
-	V    int    `json:"v,omitempty"`
-	Wrap bool   `json:"w,omitempty"` // wrapped in try/except ImportError
-	ID   int    `json:"id"`
+	K     string `json:"k"`           // imp mut read star-probe ident gomod code
+	Form  string `json:"f,omitempty"` // plain as from fromas star
+	M     string `json:"m,omitempty"` // target module
+	N     string `json:"n,omitempty"` // name imported (from forms)
+	V     int    `json:"v,omitempty"`
+	Wrap  bool   `json:"w,omitempty"` // wrapped in try/except ImportError
+	ID    int    `json:"id"`
 }
 
 func GenImport(r *simrt.Rand, faultsOK bool) *ImportProg {
